@@ -13,3 +13,5 @@ open MtailVerif.C23
 #print axioms MtailVerif.C23.lex_skeletons
 #print axioms MtailVerif.C23.text_skeletons
 #print axioms MtailVerif.C23.unparseBefore_skeletons
+#print axioms MtailVerif.C23.f_parser_unparser_skeletons
+#print axioms MtailVerif.C23.f_mfmt_main_skeletons
